@@ -39,6 +39,7 @@ CTXS = prog.CLS_NAMES
 ENTRY = ("from_", "into", "select", "update", "with_", "create_table", "drop_table")
 PAGINATION = ("limit", "offset", "slice", "fetch_next", "top", "__getitem__")
 SETOPS = ("union", "union_all", "intersect", "except_of", "minus")
+SETOP_SPELLINGS = SETOPS + ("__add__", "__mul__", "__sub__")  # the operators + * - are UNION, UNION ALL, MINUS
 
 
 def group_of(step):
@@ -520,7 +521,7 @@ SETOP_TAILS = [[]] + [list(x) for r in (1, 2, 3) for x in itertools.permutations
 
 def setop_cases():
     for cls in CTXS:
-        for op in SETOPS:
+        for op in SETOP_SPELLINGS:
             for optail in (0, 1, 2, 3, 4, 5, 6):
                 for tail in SETOP_TAILS:
                     yield {"family": "setop", "cls": cls, "op": op, "optail": optail, "tail": tail}
@@ -751,7 +752,20 @@ def check_setop(case):
     if got != want:
         kind = "repeated_clause" if len(set(got)) < len(got) else ("clause_order" if sorted(got) == sorted(want) else "clause_set")
         out.append((mksig("wellformed", cls, kind, "setop_tail"), "%s tail calls %r render the clauses %r (expected %r): %r" % (cls, case["tail"], got, want, s1)))
-    if cls == "sqlite" and case["op"] != "minus" and case["optail"] != 6:  # (FOR UPDATE is not SQLite's)
+    kw = {"union": "UNION", "__add__": "UNION", "union_all": "UNION", "__mul__": "UNION", "intersect": "INTERSECT", "except_of": "EXCEPT", "minus": "MINUS", "__sub__": "MINUS"}[case["op"]]
+    depth = 0
+    followed_by_all = False
+    for i, tk in enumerate(toks):
+        if tk.kind == "punct" and tk.text in "([":
+            depth += 1
+        elif tk.kind == "punct" and tk.text in ")]":
+            depth -= 1
+        elif depth == 0 and tk.kind == "word" and tk.value in ("UNION", "INTERSECT", "EXCEPT", "MINUS"):
+            followed_by_all = i + 1 < len(toks) and toks[i + 1].kind == "word" and toks[i + 1].value == "ALL"
+            break
+    if words[first] != kw or (case["op"] in ("union_all", "__mul__")) != followed_by_all:
+        out.append((mksig("wellformed", cls, "setop_keyword", case["op"]), "%s renders %r" % (case["op"], s1)))
+    if cls == "sqlite" and case["op"] not in ("minus", "__sub__") and case["optail"] != 6:  # (FOR UPDATE is not SQLite's)
         msg = sqlite_parse(s1)
         if msg:
             out.append((mksig("sqlite_parser", "setop", _near(msg)), "%s: %r" % (msg, s1)))
@@ -834,7 +848,7 @@ def valid_case(case):
         if case.get("family") == "accumulate":
             return case in list(accumulate_cases())
         if case.get("family") == "setop":
-            return case["cls"] in CTXS and case["op"] in SETOPS and case["optail"] in (0, 1, 2, 3, 4, 5, 6) and case["tail"] in SETOP_TAILS
+            return case["cls"] in CTXS and case["op"] in SETOP_SPELLINGS and case["optail"] in (0, 1, 2, 3, 4, 5, 6) and case["tail"] in SETOP_TAILS
         p = case["program"]
         n = len(p["steps"])
         if '["tbl", null' in json.dumps(p) or '"tbl", ""' in json.dumps(p):
